@@ -143,6 +143,15 @@ func (f *frame) applyCall(c *ssa.CallCommon, v ssa.Value, pos token.Pos, deferre
 		defer func() { f.noteCallResult(matches, result) }()
 	}
 	fc := e.E.CS.Funcs[key]
+	if fc != nil && e.top != nil && e.top.contract != nil {
+		for _, fg := range e.top.contract.Forget {
+			if fg == key {
+				// this proof does not need the callee's contract: effects by inferred write set
+				e.note("callee contract not used here (abstract): " + key)
+				fc = nil
+			}
+		}
+	}
 	if mc, ok := c.Value.(*ssa.MakeClosure); ok && fc == nil && e.depth < 6 && len(callee.Blocks) > 0 && len(callee.Blocks) <= 12 && !hasLoop(callee) {
 		// direct call of a local closure: the body is inlined with its captured variables
 		return f.inlineClosure(callee, mc, args, base, resT, pos)
@@ -1285,7 +1294,23 @@ func (f *frame) atCallObligations(key string, args []SV, pos token.Pos) {
 				extra[fmt.Sprintf("arg%d", i)] = a
 			}
 		}
-		c := f.evalContractBool(cs.Clause, f.curHeap, extra, nil)
+		c, ok := func() (c string, ok bool) {
+			// a clause naming a version of a local (x#upd) that is not computed yet at this
+			// call site says nothing about this site
+			defer func() {
+				if r := recover(); r != nil {
+					if ce, isCE := r.(contractErr); isCE && strings.Contains(ce.msg, "unknown identifier") && strings.Contains(ce.msg, "#") {
+						ok = false
+						return
+					}
+					panic(r)
+				}
+			}()
+			return f.evalContractBool(cs.Clause, f.curHeap, extra, nil), true
+		}()
+		if !ok {
+			continue
+		}
 		f.oblige(fmt.Sprintf("atcall.%d", k+1), e.srcText(f.fn, pos, "call"), c, cs.Clause.Text, pos)
 		o := e.obls[len(e.obls)-1]
 		o.Props = cs.Clause.Props
